@@ -80,3 +80,17 @@ NOT_APPLICABLE = {}
 for _p in ALL:
     if _p not in CHECKS:
         NOT_APPLICABLE[_p] = "check under construction in this session (see DESIGN.md section 8 for the planned contracts)"
+
+
+def keys_of(pid):
+    """the functions under contract in a property's deductive part (the KEYS of its check module)"""
+    import importlib
+
+    for modname in ("vf.props.%s_ded" % pid, "vf.props.%s" % pid):
+        try:
+            mod = importlib.import_module(modname)
+        except ImportError:
+            continue
+        if hasattr(mod, "KEYS"):
+            return list(mod.KEYS)
+    return []
